@@ -755,7 +755,11 @@ impl Duration {
                 }
                 // c. Let internalDuration be ToInternalDurationRecordWith24HourDays(duration).
                 // d. Let total be TotalTimeDuration(internalDuration.[[Time]], unit).
-                let total = self.time.to_normalized().total(unit)?;
+                let total = self
+                    .time
+                    .to_normalized()
+                    .add_days(self.days().as_())?
+                    .total(unit)?;
                 Ok(total)
             }
         }
